@@ -89,15 +89,19 @@ func unpadCase(c *ev.Case) {
 			return
 		}
 	} else {
-		if err != nil {
+		if err != nil && (b < 1 || b > 255) {
+			// the statement promises the round trip for block sizes 1..255 only; a
+			// library that refuses other block sizes outright is within it
+			c.Add("unpad_valid_padding_refused_for_block_size_outside_1..255", 1)
+		} else if err != nil {
 			c.Failf("unpad-rejects-valid", "%s(data, %d) returned error %q for correctly padded data (pad %d): data(%d)=%s", name, b, err, len(orig)-ref.n, len(orig), hx(orig))
 			return
 		}
-		if len(got) != ref.n {
+		if err == nil && len(got) != ref.n {
 			c.Failf("unpad-len", "%s(data, %d) returned %d bytes, the un-padded prefix has %d: data(%d)=%s", name, b, len(got), ref.n, len(orig), hx(orig))
 			return
 		}
-		if !bytes.Equal(got, orig[:ref.n]) {
+		if err == nil && !bytes.Equal(got, orig[:ref.n]) {
 			c.Failf("unpad-diff", "%s(data, %d) returned %s, want %s", name, b, hx(got), hx(orig[:ref.n]))
 			return
 		}
